@@ -2,6 +2,8 @@ package main
 
 import (
 	"fmt"
+
+	"go.sia.tech/core/types"
 )
 
 func init() {
@@ -38,7 +40,74 @@ func (r *Run) ledgerEra(i int) (allow, require uint64) {
 	}
 }
 
+// the legacy window below HardforkV2.EphemeralOutputHeight: a revision may leave the host's missed value above
+// its valid value, and the expiry then creates the difference (known finding F11; consensus-level, not repairable
+// without a hardfork). One scripted chain reproduces it on every run.
+func c01LegacyWindow(r *Run) {
+	n := r.ledgerNet()
+	c := newLChain(r, n, 2, 3)
+	n.HardforkV2.EphemeralOutputHeight = 40
+	c.genesisToks = append(netLToks(n), c.stateToks()...)
+	c.summaryToks0 = c.summaryToks(c.cs(), c.st())
+	step := func(build func(p *blockPlan)) bool {
+		p := c.plan()
+		build(p)
+		b := c.newBlock(p.txns, p.v2txns)
+		if err := c.process(b, c.supplement(b), true, "honest"); err != nil {
+			r.violate("harness.c01-legacy", "scripted block rejected: %v", err)
+			return false
+		}
+		return true
+	}
+	for c.child() < 6 {
+		if !step(func(p *blockPlan) {}) {
+			return
+		}
+	}
+	if !step(func(p *blockPlan) { p.v2Form() }) {
+		return
+	}
+	var fcid types.FileContractID
+	for id := range c.st().v2fces {
+		fcid = id
+	}
+	if !step(func(p *blockPlan) {
+		e, ok := c.st().v2fces[fcid]
+		if !ok || e.V2FileContract.ProofHeight < c.child() {
+			return
+		}
+		fc := e.V2FileContract
+		rev := fc
+		rev.RevisionNumber++
+		// move almost all of the host's value to the renter: the total is kept, the missed host value stays
+		d := rev.HostOutput.Value.Sub(types.NewCurrency64(1))
+		rev.HostOutput.Value = rev.HostOutput.Value.Sub(d)
+		rev.RenterOutput.Value = rev.RenterOutput.Value.Add(d)
+		c.signContract(&rev, c.keyIdx(fc.RenterPublicKey), c.keyIdx(fc.HostPublicKey))
+		p.v2txns = append(p.v2txns, types.V2Transaction{FileContractRevisions: []types.V2FileContractRevision{{Parent: e.Copy(), Revision: rev}}})
+	}) {
+		return
+	}
+	for k := 0; k < 12; k++ {
+		e, ok := c.st().v2fces[fcid]
+		if !ok {
+			break
+		}
+		if !step(func(p *blockPlan) {
+			if c.child() > e.V2FileContract.ExpirationHeight {
+				p.v2txns = append(p.v2txns, types.V2Transaction{FileContractResolutions: []types.V2FileContractResolution{{Parent: e.Copy(), Resolution: &types.V2FileContractExpiration{}}}})
+			}
+		}) {
+			return
+		}
+	}
+	c.emit("legacy-window")
+}
+
 func runLedger(r *Run, prop string) {
+	if prop == "C01" {
+		c01LegacyWindow(r)
+	}
 	if prop == "C09" {
 		c09Copies(r)
 		for i := 0; i < r.pick(30, 800); i++ {
